@@ -256,8 +256,12 @@ def vacuum(session, model, yield_per=1000):
         .order_by(option(version_cls, 'transaction_column_name'))
     ).yield_per(yield_per)
 
+    # attribute keys: an attribute may be named differently from its column
+    # (id = Column('_id'))
+    mapper = sa.inspection.inspect(model)
     primary_key_cols = [
-        column.name for column in sa.inspection.inspect(model).primary_key
+        mapper.get_property_by_column(column).key
+        for column in mapper.primary_key
     ]
 
     for version in query:
